@@ -30,8 +30,21 @@ Ltac formula_interval := cbv zeta; kill_pypow; kill_nan_div; interval with (i_pr
    decide every pressure comparison with lra, enclose the logarithms with interval *)
 From Coq Require Import List.
 From PG Require Import Models.SpreadPoint.
+Lemma if_Rlt_true a b (x y : R) : a < b -> (if Rlt_dec a b then x else y) = x.
+Proof. intros H; destruct (Rlt_dec a b); [reflexivity | contradiction]. Qed.
+Lemma if_Rlt_false a b (x y : R) : b <= a -> (if Rlt_dec a b then x else y) = y.
+Proof. intros H; destruct (Rlt_dec a b); [lra | reflexivity]. Qed.
+(* binary64 values are dyadic rationals: exactly representable at 80 bits, so interval decides equal knots too; lra is the fallback *)
 Ltac decide_cmp :=
   repeat match goal with
-  | |- context [Rlt_dec ?a ?b] => destruct (Rlt_dec a b); [ try (exfalso; lra) | try (exfalso; lra) ]
+  | |- context [if Rlt_dec ?a ?b then ?x else ?y] =>
+      first [ rewrite (if_Rlt_true a b x y) by (interval with (i_prec 80))
+            | rewrite (if_Rlt_false a b x y) by (interval with (i_prec 80))
+            | rewrite (if_Rlt_true a b x y) by lra
+            | rewrite (if_Rlt_false a b x y) by lra ]
   end.
-Ltac sp_point_interval := cbv [sp_point sp_from seg last_seg lin]; decide_cmp; interval with (i_prec 80).
+Ltac cmp_tac := first [ interval with (i_prec 80) | lra ].
+Ltac sp_steps :=
+  first [ rewrite sp_point_head_lt by cmp_tac | rewrite sp_point_below_first by cmp_tac ];
+  repeat first [ rewrite sp_from_step_lt by cmp_tac | rewrite sp_from_step_ge by cmp_tac ].
+Ltac sp_point_interval := sp_steps; cbv [seg last_seg lin]; interval with (i_prec 80).
